@@ -3,7 +3,7 @@
 From Coq Require Import List NArith ZArith Bool.
 From Coq Require Import Strings.Byte.
 From UF Require Import Base.Lit Base.Bytes Model.Options Model.Netip Model.NetRule Model.Rule Model.Request Model.Match
-  Model.Result Model.Engines Proofs.C02Proofs.
+  Model.Result Model.Storage Model.Engines Proofs.C02Proofs Proofs.EndToEnd.
 Import ListNotations.
 
 (* "DNS-applicable": the host-level test of the code is exactly "no $domain, not both content-type lists,
@@ -53,3 +53,9 @@ Theorem C02_empty_hostname : forall hash psl retr retr_host rules hostname q, ho
   snd r = false /\ dr_network_rules (fst r) = [] /\ dr_network_rule (fst r) = None /\ dr_v4 (fst r) = [] /\ dr_v6 (fst r) = [].
 Proof. exact dns_empty. Qed.
 Print Assumptions C02_empty_hostname.
+
+(* storage_intact is what the storage provides (C11) for everything its scanner yields *)
+Theorem C02_storage_intact : forall s scanned, storage_ok s -> storage_scan s = Ok scanned ->
+  storage_intact (retr_net_of s) (retr_host_of s) scanned.
+Proof. exact dns_storage_intact. Qed.
+Print Assumptions C02_storage_intact.
